@@ -108,7 +108,14 @@ void dsim_scenario() {
                 switch (wk[i]) {
                 case 0: case 1: break; // handled by caller (needs join)
                 case 2: { dsim::cell_set(STARTED + i, 1); try { f.wait(); } catch (...) {} observe_and_release(f, i); break; }
-                case 3: { dsim::cell_set(STARTED + i, 1); f.sync(); observe_and_release(f, i); break; }
+                case 3: {   // sync(), or the blocking form of has_value(): the awaitable bool converted in ordinary code waits for the resolution
+                    dsim::cell_set(STARTED + i, 1);
+                    if (i & 1) {
+                        bool hv = f.has_value();
+                        observe_and_release(f, i);
+                        if (hv != (dsim::cell_get(EXPECT_KIND) != K_NOVALUE)) dsim::fail("C02.incomplete_result", "blocking has_value() gave %d", (int)hv);
+                    } else { f.sync(); observe_and_release(f, i); }
+                    break; }
                 case 4: {
                     dsim::cell_set(STARTED + i, 1);
                     customs[i].f = &f; customs[i].i = i;
